@@ -363,8 +363,15 @@ def rule_exempt(ctx):
             if undecided:
                 break
             table[probe] = converts
+        if undecided and ("subscript failed" in undecided[1] or "str method failed" in undecided[1]):
+            # the test itself fails on a well-formed parsed line (a key the parsed-line dict does not have, an index that is not
+            # there): at run time that is an exception on every such header line
+            ctx.bad("HDR.EXEMPT", site, fi, undecided[0], "the exemption test `%s` cannot be evaluated on a parsed header line (%s): it "
+                    "raises instead of deciding whether the value may be converted" % (unparse(undecided[0]), undecided[1]))
+            continue
         if undecided:
-            raise AnalysisError("HDR.EXEMPT: cannot fold the exemption test `%s` (%s)" % (unparse(undecided[0]), undecided[1]))
+            ctx.undecided("HDR.EXEMPT", site, fi, undecided[0], "the exemption test `%s` is not foldable (%s)" % (unparse(undecided[0]), undecided[1]))
+            continue
         wrong = [n for n, conv in table.items() if conv == (n.upper() in ("API", "UWI"))]
         if wrong:
             kept = [n for n in wrong if n.upper() in ("API", "UWI")]
@@ -474,3 +481,33 @@ def rule_curve_raw(ctx):
               "in metadata() only the value field (per the value/descr order) is converted",
               "; ".join(bad))
     ctx.floor("HDR.CURVE-RAW", 3)
+
+
+def rule_read_no_rewrite(ctx):
+    """HDR.READ-NO-REWRITE: read() hands out the header items as the section parser built them: no function of the read
+    family stores into .value / .unit / .descr / .mnemonic of an item of the section it has just parsed (e.g. turning
+    `VERS. 2` into 2.0 gives the same text a different type depending on its mnemonic)"""
+    from rules.common import read_family
+    p = ctx.p
+    n = 0
+    for fi in read_family(p):
+        if fi.name in ("update_start_stop_step", "update_units_from_index_curve", "update_curve", "set_data", "append_curve",
+                       "insert_curve", "append_curve_item", "insert_curve_item", "replace_curve_item", "delete_curve", "__setitem__",
+                       "__setattr__", "set_data_from_df", "stack_curves", "write", "to_csv", "to_excel"):
+            continue
+        stores = []
+        for sub in walk_shallow(fi.node):
+            if isinstance(sub, (ast.Assign, ast.AugAssign)):
+                for t in (sub.targets if isinstance(sub, ast.Assign) else [sub.target]):
+                    if isinstance(t, ast.Attribute) and t.attr in ("value", "unit", "descr", "mnemonic", "original_mnemonic") \
+                            and not (isinstance(t.value, ast.Name) and t.value.id == "self"):
+                        stores.append(sub)
+        n += 1
+        site = "%s#parsed-items" % fi.qual
+        if stores:
+            ctx.bad("HDR.READ-NO-REWRITE", site, fi, stores[0], "`%s` rewrites a field of a parsed header item during read(): the value "
+                    "no longer is what the section parser made of the text (type or content depends on the mnemonic/section)"
+                    % unparse(stores[0])[:90])
+        else:
+            ctx.ok("HDR.READ-NO-REWRITE", site, fi, fi.node, "no parsed item field is rewritten", nontrivial=fi.name == "read")
+    ctx.floor("HDR.READ-NO-REWRITE", 1)
